@@ -638,6 +638,7 @@ ConcFrameSets == { << <<0, 3, 97, 97, 97>>, <<0, 5, 99, 99, 99, 99, 99>>, <<0, 2
                    << <<48, 5, 0, 1, 97, 0, 122>>, <<50, 6, 0, 1, 97, 0, 7, 0>>, <<64, 2, 0, 1>>, <<224, 0>> >> }
 ConcFrameCases == IF 1 \in TYPES THEN {[kind |-> "concframes", fs |-> fs, after |-> af] : fs \in ConcFrameSets, af \in 0..2}
                                         \cup {[kind |-> "concpool", j |-> j] : j \in 1..3} \cup {[kind |-> "concmalformed", j |-> j] : j \in 1..3}
+                                        \cup {[kind |-> "concwill", j |-> j] : j \in 1..3}
                   ELSE {}
 (* a PUBLISH decoded earlier stays in use (written, inspected) while other goroutines decode frames that carry a *)
 (* subscription identifier where MQTT allows none                                                               *)
@@ -671,6 +672,15 @@ FaultyReads(af) ==
          [op |-> "Stream", stream |-> 2, bytes |-> <<16, 130, 1>>, reader |-> [chunks |-> <<>>, fate |-> ft, with |-> FALSE, cut |-> 2]],
          [op |-> "ReadPacket", h |-> 7, stream |-> 2],
          [op |-> "Stream", stream |-> 2, bytes |-> <<64, 3, 0>>], [op |-> "ReadPacket", h |-> 7, stream |-> 2]>>
+(* a CONNECT whose will had no payload (j = 1), no topic (j = 2) or nothing at all (j = 3) when it was attached, used by several *)
+(* goroutines before anything was ever encoded: whatever the encoder fills in lazily, it must not write it into the shared packet *)
+ConcWillProg(x) ==
+  [fam |-> "conc", meta |-> [kind |-> x.kind],
+   steps |-> <<[op |-> "New", h |-> 1, type |-> "Connect"], CallOp(1, "SetClientID", <<Txt(2)>>),
+               [op |-> "Pub", h |-> 2, args |-> <<1, IF x.j \in {2, 3} THEN <<>> ELSE Txt(3), IF x.j \in {1, 3} THEN <<>> ELSE Bin(2)>>],
+               CallOp(1, "SetWill", <<[h |-> 2]>>),
+               [op |-> "Conc", hs |-> <<1>>, ops |-> <<"WriteTo", "String", "WriteTo", "Dump">>, procs |-> 4, n |-> IF Thorough THEN 2000 ELSE 300],
+               [op |-> "WriteTo", h |-> 1]>>]
 ConcFramesProg(x) ==
   [fam |-> "conc", meta |-> [kind |-> x.kind, after |-> x.after],
    steps |-> FaultyReads(x.after) \o <<[op |-> "New", h |-> 1, type |-> "PingReq"],
@@ -843,10 +853,11 @@ ProgOf2(x) ==
   ELSE IF x.kind = "concframes" THEN ConcFramesProg(x)
   ELSE IF x.kind = "concpool" THEN ConcPoolProg(x)
   ELSE IF x.kind = "concmalformed" THEN ConcMalformedProg(x)
+  ELSE IF x.kind = "concwill" THEN ConcWillProg(x)
   ELSE ProgOf(x)
 
 Theorems2 ==
-  IF c.kind \in {"frame", "build", "cut", "undef", "bool", "prefix", "rlfifth", "vbi5", "badsubid", "foreign", "dupprop", "badutf8", "dupbad", "badtext"} THEN Theorems
+  IF c.kind \in {"frame", "build", "cut", "undef", "bool", "prefix", "rlfifth", "vbi5", "badsubid", "foreign", "dupprop", "badutf8", "dupbad", "badtext", "lenpm"} THEN Theorems
   ELSE IF c.kind = "cred" THEN Len(SecretA(c)) = Len(SecretB(c)) /\ SecretA(c) # SecretB(c)
   ELSE IF c.kind = "vbienc" THEN \A v \in {y \in VbiValues : y >= c.lo /\ y < c.lo + 64} :
                                    /\ VBI(v) = VBI4(v) /\ Len(VBI(v)) = VBILen(v)
